@@ -59,14 +59,28 @@ def check(run):
         return min(cids, key=lambda c: tieorder[c])
 
     def scot_choice_ok(tied, chosen, lowest):
-        "the Scottish prior-stage rule; returns (ok, how)"
+        """
+        the Scottish prior-stage rule; returns (ok, how).  When several candidates share the extreme at the most recent differing
+        stage, only they stay in contention; the statute does not say whether older stages are consulted again among them or the
+        lot decides at once, so both are accepted - but nothing else: among candidates level at every stage the lot (tie order) decides
+        """
+        live = list(tied)
+        first_shared = None
+        how = 'lot'
         for rs in reversed(round_snaps):
-            vals = {c: rs.cands[c].vote for c in tied}
+            vals = {c: rs.cands[c].vote for c in live}
             if len(set(vals.values())) > 1:
                 ext = min(vals.values()) if lowest else max(vals.values())
-                cand = [c for c in tied if vals[c] == ext]
-                return chosen in cand, ('prior' if len(cand) == 1 else 'prior-shared')
-        return chosen == first_by_tieorder(tied), 'lot'
+                live = [c for c in live if vals[c] == ext]
+                if first_shared is None:
+                    first_shared = list(live)
+                    how = 'prior' if len(live) == 1 else 'prior-shared'
+                if len(live) == 1:
+                    break
+        permitted = {first_by_tieorder(live)}
+        if first_shared is not None:
+            permitted.add(first_by_tieorder(first_shared))
+        return chosen in permitted, how
 
     def judge_tie(tied, chosen, tie_ev, act_ev, lowest, amb):
         "tied: monitor's tied set (cids); tie_ev: preceding 'tie' event or None"
